@@ -156,7 +156,7 @@ func checkBeaconFees(ctx sdk.Context, tx sdk.FeeTx, bk BeaconKeeper) error {
 			m := msg.(*types.MsgPurchaseBeaconStateStorage)
 			numSlots := m.Number
 			feePerSlot := bk.GetPurchaseStorageFeeAsCoin(ctx)
-			totalForSlotsAmt := feePerSlot.Amount.Mul(sdk.NewInt(int64(numSlots)))
+			totalForSlotsAmt := feePerSlot.Amount.Mul(sdk.NewIntFromUint64(numSlots))
 			totalForSlotsCoin := sdk.NewCoin(feePerSlot.Denom, totalForSlotsAmt)
 			expectedFees = expectedFees.Add(totalForSlotsCoin)
 			numMsgs = numMsgs + 1
